@@ -41,6 +41,16 @@ CLAUSES = ('C15_AckedSurvive', 'C15_AckedFlagsPersist', 'C15_NoUidReuse',
            'C15_AckedSubscriptionsPersist')
 EXDEV = 'TempDirOtherFilesystemEXDEV'
 
+# model mutants: cfg -> the invariant TLC must report (None: must pass - writing the uidlist
+# record before the message file is linked is harmless because the OK comes last and a record
+# without a file is inert)
+MODEL_MUTANTS = {
+    'MaildirStore_mut_writeinplace.cfg': 'ControlFilesReadable',
+    'MaildirStore_mut_nopersistn.cfg': 'NoUidReuse',
+    'MaildirStore_mut_skipsubs.cfg': 'AckedSubscriptionsPersist',
+    'MaildirStore_mut_uidlistfirst.cfg': None,
+}
+
 # scenario seeds (same alphabet as the model; the nested-folder ones are beyond the
 # model's flat name space and are judged by the observer only)
 SEEDS = [
@@ -174,9 +184,13 @@ def pick_histories(cands: list, n: int, rng) -> list:
     rng.shuffle(cands)
     chosen, covered = [], set()
     feats = [features(c['history']) for c in cands]
+    # message / namespace operations are rarer in uniform simulation than APPEND / CREATE
+    rich = [sum(1 for st in c['history'] if st[0] in ('Store', 'Copy', 'Move', 'Expunge', 'Check', 'Rename'))
+            for c in cands]
     left = list(range(len(cands)))
     while left and len(chosen) < n:
-        best = max(left, key=lambda i: (len(feats[i] - covered), -len(cands[i]['history'])))
+        best = max(left, key=lambda i: (len(feats[i] - covered) + 0.4 * rich[i],
+                                        -len(cands[i]['history'])))
         if not feats[best] - covered:
             # everything covered once: start a second round
             covered = set()
@@ -313,6 +327,60 @@ def main(tier: str) -> int:
         'exercised on the real code and judged by the observer, not by MaildirStore.tla',
     ]
 
+    # ---- 0. worker pool, scratch area, templates: before anything makes this process fat
+    # or multi-threaded (every crash run is a fork of a pool worker)
+    ctx = multiprocessing.get_context('fork')
+    pool = cf.ProcessPoolExecutor(max_workers=16, mp_context=ctx)
+    store_root = tempfile.mkdtemp(prefix='verif.c15.', dir='/dev/shm' if os.path.isdir('/dev/shm')
+                                  else None)
+    same_tmp = os.path.join(store_root, 'tmp')
+    os.makedirs(same_tmp)
+    other_tmp = tempfile.mkdtemp(prefix='verif.c15.othertmp.', dir='/tmp')
+    try:
+        return _main(run, tier, rng, t_start, pool, store_root, same_tmp, other_tmp)
+    finally:
+        pool.shutdown(wait=False, cancel_futures=True)
+        shutil.rmtree(store_root, ignore_errors=True)
+        shutil.rmtree(other_tmp, ignore_errors=True)
+
+
+def _warm_task(_i):
+    mc.warm()
+    time.sleep(0.05)
+    return os.getpid()
+
+
+def _simulate_part(a):
+    """one TLC -simulate call -> histories only (the states are dropped at once)"""
+    cfgname, num, seed = a
+    behs, sres = tlc.simulate('MaildirStore.tla', cfgname, num=num, depth=220, seed=seed)
+    out = []
+    for b in behs:
+        h = behaviour_to_history(b)
+        if h is not None:
+            h['existing'] = ['Box'] if cfgname.endswith('_box.cfg') else []
+            out.append(h)
+    return cfgname, len(behs), sres.ok, (sres.error or sres.output[-600:]) if not behs else '', out
+
+
+def _main(run, tier, rng, t_start, pool, store_root, same_tmp, other_tmp) -> int:
+    different_fs = os.stat(store_root).st_dev != os.stat(other_tmp).st_dev
+    try:
+        workers_seen = set(pool.map(_warm_task, range(48)))
+        templates = {}
+        for layout in ('++', 'fs'):
+            cfg = mc.Cfg(layout, 'same', store_root, same_tmp)
+            tpl = os.path.join(store_root, f'tpl.{layout}')
+            tplv = os.path.join(store_root, f'tplv.{layout}')
+            mc.make_template(cfg, tpl, same_tmp, False)
+            mc.make_template(cfg, tplv, same_tmp, True)
+            templates[layout] = (tpl, tplv)
+    except Exception:
+        import traceback
+        run.machinery('worker pool / templates: ' + traceback.format_exc()[-1200:])
+        return run.finish()
+    run.notes['pool_workers'] = len(workers_seen)
+
     # ---- 1. the model ------------------------------------------------------------------
     if tier == 'quick':
         cfgs = ['MaildirStore_ideal.cfg', 'MaildirStore_ideal_msgs.cfg',
@@ -338,12 +406,17 @@ def main(tier: str) -> int:
         # must break an invariant
         model_results['strict'] = tlc.run_tlc('MaildirStore.tla', 'MaildirStore_asis_strict.cfg',
                                               workers=workers, timeout=600)
+        # and the invariants bite: model mutants (one named deviation each, nothing tolerated)
+        with cf.ThreadPoolExecutor(max_workers=3) as ex:
+            for c, res in ex.map(lambda c: (c, tlc.run_tlc('MaildirStore.tla', c, workers=2, timeout=900)),
+                                 list(MODEL_MUTANTS if tier != 'quick' else list(MODEL_MUTANTS)[:3])):
+                model_results[c] = res
     model_thread = threading.Thread(target=check_models)
     model_thread.start()
 
     # ---- 2. histories ------------------------------------------------------------------
     if tier == 'quick':
-        n_hist, n_sim, fs_every, other_n = 14, 240, 3, 3
+        n_hist, n_sim, fs_every, other_n = 18, 240, 2, 3
     else:
         n_hist, n_sim, fs_every, other_n = 200, 3000, 1, None
     cands, seen_h = [], set()
@@ -351,28 +424,29 @@ def main(tier: str) -> int:
     try:
         simcfgs = ('MaildirStore_sim.cfg', 'MaildirStore_sim_box.cfg')
         nthreads = 2 if tier == 'quick' else 6
+        per_call = 120 if tier == 'quick' else 125
         parts = []
         for ci, cfgname in enumerate(simcfgs):
-            for part in range(nthreads // 2):
-                parts.append((cfgname, n_sim // nthreads, run.seed * 7919 + 17 + 101 * part))
+            for part in range(max(1, n_sim // 2 // per_call)):
+                parts.append((cfgname, per_call, run.seed * 7919 + 17 + 101 * part))
         with cf.ThreadPoolExecutor(max_workers=nthreads) as ex:
-            sims = list(ex.map(lambda a: tlc.simulate('MaildirStore.tla', a[0], num=a[1], depth=220,
-                                                      seed=a[2]), parts))
-        for (cfgname, _n, _s), (behs, sres) in zip(parts, sims):
-            sim_stats.append({'cfg': cfgname, 'behaviours': len(behs), 'ok': sres.ok})
-            if not behs:
-                run.machinery(f'no behaviours from {cfgname}: ' + (sres.error or sres.output[-600:]))
+            sims = list(ex.map(_simulate_part, parts))
+        tot = {}
+        for cfgname, nb, ok, err, hs in sims:
+            t = tot.setdefault(cfgname, {'cfg': cfgname, 'behaviours': 0, 'ok': True})
+            t['behaviours'] += nb
+            t['ok'] = t['ok'] and ok
+            if not nb:
+                run.machinery(f'no behaviours from {cfgname}: {err}')
                 model_thread.join()
                 return run.finish()
-            for b in behs:
-                h = behaviour_to_history(b)
-                if h is None:
-                    continue
-                h['existing'] = ['Box'] if cfgname.endswith('_box.cfg') else []
+            for h in hs:
                 key = json.dumps([h['history'], h['existing']])
                 if key not in seen_h:
                     seen_h.add(key)
                     cands.append(h)
+        sim_stats = list(tot.values())
+        del sims
     except (tlc.TLCError, ValueError) as exc:
         run.machinery('history generation failed: ' + repr(exc))
         model_thread.join()
@@ -390,22 +464,8 @@ def main(tier: str) -> int:
                               'seeds': len(SEEDS), 'simulation': sim_stats}
 
     # ---- 3. crash enumeration ----------------------------------------------------------
-    store_root = tempfile.mkdtemp(prefix='verif.c15.', dir='/dev/shm' if os.path.isdir('/dev/shm')
-                                  else None)
-    same_tmp = os.path.join(store_root, 'tmp')
-    os.makedirs(same_tmp)
-    other_tmp = tempfile.mkdtemp(prefix='verif.c15.othertmp.', dir='/tmp')
-    different_fs = os.stat(store_root).st_dev != os.stat(other_tmp).st_dev
     results, jobs = [], []
     try:
-        templates = {}
-        for layout in ('++', 'fs'):
-            cfg = mc.Cfg(layout, 'same', store_root, same_tmp)
-            tpl = os.path.join(store_root, f'tpl.{layout}')
-            tplv = os.path.join(store_root, f'tplv.{layout}')
-            mc.make_template(cfg, tpl, same_tmp, False)
-            mc.make_template(cfg, tplv, same_tmp, True)
-            templates[layout] = (tpl, tplv)
         nonce = 'n%d' % run.seed
         for h in histories:
             places = [('++', 'same')]
@@ -420,35 +480,31 @@ def main(tier: str) -> int:
                 jobs.append({'cfg': (layout, place, store_root,
                                      same_tmp if place == 'same' else other_tmp, same_tmp),
                              'history': h['history'], 'hid': h['hid'], 'nonce': nonce,
-                             'virgin': h['virgin'] or (h['model'] is None and False),
+                             'virgin': h['virgin'],
                              'template': templates[layout][0],
                              'template_virgin': templates[layout][1]})
         t0 = time.time()
-        ctx = multiprocessing.get_context('fork')
-        with cf.ProcessPoolExecutor(max_workers=16, mp_context=ctx) as ex:
-            # longest first
-            order = sorted(range(len(jobs)), key=lambda i: -len(jobs[i]['history']))
-            futs = {ex.submit(mc.run_job, jobs[i]): i for i in order}
-            res_by = {}
-            for fu in cf.as_completed(futs):
-                res_by[futs[fu]] = fu.result()
-            results = [res_by[i] for i in range(len(jobs))]
-            base = {'cfg': ('++', 'same', store_root, same_tmp, same_tmp), 'nonce': nonce,
-                    'template': templates['++'][0], 'template_virgin': templates['++'][1]}
-            stale = ex.submit(mc.stale_lock_probe, base).result()
+        ex = pool
+        # longest first
+        order = sorted(range(len(jobs)), key=lambda i: -len(jobs[i]['history']))
+        futs = {ex.submit(mc.run_job, jobs[i]): i for i in order}
+        base = {'cfg': ('++', 'same', store_root, same_tmp, same_tmp), 'nonce': nonce,
+                'template': templates['++'][0], 'template_virgin': templates['++'][1]}
+        stale_f = ex.submit(mc.stale_lock_probe, base)
+        prov_f = {layout: ex.submit(mc.provisioning_probe, layout, store_root, other_tmp)
+                  for layout in (('++', 'fs') if different_fs else ())}
+        res_by = {}
+        for fu in cf.as_completed(futs):
+            res_by[futs[fu]] = fu.result()
+        results = [res_by[i] for i in range(len(jobs))]
+        stale = stale_f.result()
+        prov = {layout: f.result() for layout, f in prov_f.items()}
         run.notes['enumeration_wall_s'] = round(time.time() - t0, 1)
-        prov = {}
-        if different_fs:
-            for layout in ('++', 'fs'):
-                prov[layout] = mc.provisioning_probe(layout, store_root, other_tmp)
-    except Exception as exc:
+    except Exception:
         import traceback
         run.machinery('crash enumeration failed: ' + traceback.format_exc()[-1500:])
         model_thread.join()
         return run.finish()
-    finally:
-        shutil.rmtree(store_root, ignore_errors=True)
-        shutil.rmtree(other_tmp, ignore_errors=True)
 
     for r in results:
         for m in r['machinery']:
@@ -464,8 +520,7 @@ def main(tier: str) -> int:
         h = histories[job['hid']]
         cmds = [c for c in r.get('clean_cmds', []) if c[0] and c[0][0] not in ('Login', 'Noop')]
         for ab, labels in cmds:
-            key = ab[0] + ('' if ab[0] != 'Append' else '')
-            op_table.setdefault(f'{r["cfg"]} {key}', labels)
+            op_table.setdefault(f'{r["cfg"]} {ab[0]}', labels)
         if h['model'] is None or job['cfg'][1] != 'same':
             continue
         cmds = cmds[h['npre']:]
@@ -620,6 +675,16 @@ def main(tier: str) -> int:
         if strict.ok or not strict.violated:
             run.machinery('MaildirStore_asis_strict.cfg: expected an invariant violation, got '
                           + str(strict.error or 'none'))
+    mm = {}
+    for c, want in MODEL_MUTANTS.items():
+        res = model_results.get(c)
+        if res is None:
+            continue
+        got = (res.violated or [None])[0]
+        mm[c] = {'expected': want, 'got': got, 'states': res.distinct}
+        if got != want or (want is None and not res.ok):
+            run.machinery(f'{c}: expected {want}, TLC reported {got} {res.error or ""}')
+    run.notes['model_mutants'] = mm
     run.notes['total_wall_s'] = round(time.time() - t_start, 1)
     return run.finish()
 
